@@ -719,13 +719,14 @@ Proof.
   destruct (n <? 0) eqn:E1; [destruct (len + n <? 0) eqn:E2; lia|destruct (len <? n) eqn:E3; lia].
 Qed.
 
-Lemma slice_str_total : forall rs off len, slice_str rs off len <> Panic.
+Lemma slice_str_total : forall rs set off len, slice_str rs set off len <> Panic.
 Proof.
-  intros rs off len; unfold slice_str.
+  intros rs set off len; unfold slice_str. cbv zeta.
   assert (H1 : exists rs1, match off with Some o => slice_from rs (slice_pos (zlen rs) o) | None => Ok rs end = Ok rs1).
   { destruct off as [o|]; [|eauto]. rewrite slice_from_ok; [eauto|]. apply slice_pos_range, zlen_nonneg. }
   destruct H1 as (rs1 & ->); cbn [res_bind].
   destruct len as [l|]; [|discriminate].
+  match goal with |- (if ?c then _ else _) <> _ => destruct c end; [discriminate|].
   rewrite slice_to_ok; [discriminate|]. apply slice_pos_range, zlen_nonneg.
 Qed.
 
